@@ -174,7 +174,10 @@ def r1_inventory(ctx, chk, fx):
             hb = fx.mir[fn]
             parent = fx.mir.get(fn.split("::{closure")[0]) or hb
             framing = lambda x: bool(x.calls_to("memmem::Finder::<'n>::find") or x.calls_to("BytesMut::split_to"))
-            if framing(hb) or framing(parent):
+            # offset arithmetic may sit in a method of its own (`resume_search_at(&self)`): C06 evaluates the window expression with helpers inlined
+            arith_helper = kind == "assert:Overflow" and any(framing(fx.mir[n2]) for n2 in fx.mir if n2 != fn and any(
+                (c.rdef == fn or c.defn == fn) for c in fx.mir[n2].calls()))
+            if framing(hb) or framing(parent) or arith_helper:
                 row = (re.escape(fn) + "$", kind, {"assert:Overflow": 6, "call:index::index": 3, "call:BytesMut::split_to": 2}[kind], "c06",
                        "framing helper: search offset <= buf.len() (C06/R1), split position ends at a marker found in the buffer (C06/R2)")
         fkey = T.strip_generics(fn)
